@@ -353,7 +353,7 @@ def check(ctx: RuleCtx, sc: SiteScanner, modules: T.List[str]) -> None:
                     key = (fm[0].rel, fm[1].name)
                     per_class.setdefault(key, (cm, cc, []))[2].append(f'{rel}:{q}')
     ctx.note(f'un-keyed sorted()/sort()/min()/max() calls in scope: {n_calls}; builtin element order: {n_builtin}; not inferred: {n_unknown}')
-    ctx.floor('un-keyed sort calls examined', n_calls, 15)
+    ctx.floor('un-keyed sort calls examined', n_calls, 8)
     ctx.floor('repository classes whose __lt__ carries an un-keyed sort', len(per_class), 1)
     for key in sorted(per_class):
         cm, cc, users = per_class[key]
@@ -378,4 +378,4 @@ def check(ctx: RuleCtx, sc: SiteScanner, modules: T.List[str]) -> None:
             except Undecided as e:
                 del ctx.findings[before:]
                 ctx.note(f'{rel}:{cls.name}.__lt__: not decided ({e})')
-    ctx.floor('further repository classes with __lt__ examined', extra, 4)
+    ctx.floor('further repository classes with __lt__ examined', extra, 2)
